@@ -36,6 +36,17 @@ mod private {
             let offset = stream.tell();
             let mut serializer = Serializer::new(BlockCheck::Crc32);
             self.serialize_tail(&mut serializer)?;
+            if serializer.len() > 0xFFFF {
+                // The tail is referenced by a SizedOffset, which stores its size on 16 bits.
+                return Err(std::io::Error::new(
+                    std::io::ErrorKind::InvalidInput,
+                    format!(
+                        "Tail of {} bytes is too big to be referenced (max is 65535 bytes)",
+                        serializer.len()
+                    ),
+                )
+                .into());
+            }
             let size = stream.write_serializer(serializer)?.into();
             Ok(SizedOffset { size, offset })
         }
